@@ -91,7 +91,12 @@ ObsCloseFit(a, b, rtol) ==
 CheckSame(c) ==
   IF c.a.k # "ok" \/ c.b.k # "ok" THEN Verdict(c.id, c.what \o ": a fit raised", FALSE)
   ELSE \A k \in DOMAIN c.a.p :
-     Verdict(c.id, c.what, ObsCloseFit(c.a.p[k], c.b.p[k], c.rtol))
+     \* two runs of a minimiser agree to a small fraction of the parameter's own error (a parameter of an ill-conditioned fit may be much
+     \* smaller than its error: its value is then not reproduced to 1e-6 of itself, and need not be); the fluctuations as before
+     IF "sig" \in DOMAIN c
+     THEN Verdict(c.id, c.what, /\ RClose(c.a.p[k].value, c.b.p[k].value, c.rtol, RMul("1/100000", c.sig[k]))
+                                /\ ObsCloseFit([c.a.p[k] EXCEPT !.value = c.b.p[k].value], c.b.p[k], c.rtol))
+     ELSE Verdict(c.id, c.what, ObsCloseFit(c.a.p[k], c.b.p[k], c.rtol))
 \* first-order prediction of a re-fit after shifting one datum by eps: p' - p = eps * dp/d(datum)
 CheckShift(c) ==
   IF c.base.k # "ok" \/ c.shifted.k # "ok" THEN Verdict(c.id, "shift: a fit raised", FALSE)
